@@ -240,6 +240,17 @@ func (w *World) fnWrites(x *Exec, fn *ssa.Function) map[string]bool {
 		for _, m := range fc.Modifies {
 			out[m] = true
 		}
+		// ghost heaps set by the callee's hooks belong to its write set
+		for _, h := range fc.Hooks {
+			for _, a := range h.Actions {
+				if a.Kind == "set" {
+					if gs, ok := w.CS.GhostHeaps[a.Var]; ok {
+						x.regHeap("G!"+a.Var, gs)
+						out["G!"+a.Var] = true
+					}
+				}
+			}
+		}
 	}
 	name := fn.String()
 	if w.intrinsicWrites(x, name, out) {
